@@ -523,7 +523,8 @@ let process_trace header lines =
   let excess = ref [] in
   let covtags = ref [] in
   let prev_core = ref None in
-  let pending_resp = ref None and wait_job = ref None and completed_model = ref [] in
+  let pending_resp : (int, string) Hashtbl.t = Hashtbl.create 4 and wait_job : (int, int) Hashtbl.t = Hashtbl.create 4 and completed_model = ref [] in
+  let next_conn = ref 0 and flushed : (int, unit) Hashtbl.t = Hashtbl.create 4 in
   let cur_resp = ref "" in
   let check_state () =
     match (!state, !icore) with
@@ -637,18 +638,20 @@ let process_trace header lines =
                  no step of the state machine; the specification is that the client that asked to
                  be told receives the completion of its job whenever the job completed *)
               print_endline line;
+              let karg = match words body with _ :: k :: _ -> (try ios k with _ -> 0) | _ -> 0 in
               (match (words body, !state) with
               | "FLUSHDONE" :: _, Some s ->
-                  (match !pending_resp with Some r -> print_endline r | None -> print_endline "= RESP submit ?false");
-                  pending_resp := None;
+                  (match Hashtbl.find_opt pending_resp karg with Some r -> print_endline r | None -> print_endline "= RESP submit ?false");
+                  Hashtbl.remove pending_resp karg;
+                  Hashtbl.replace flushed karg ();
                   print_snapshot s
               | "WAITCHECK" :: _, Some s ->
-                  (match !wait_job with
+                  (match Hashtbl.find_opt wait_job karg with
                   | Some j ->
                       let c = if List.mem j !completed_model then 1 else 0 in
                       Printf.printf "= WAIT job=%d completed=%d delivered=%d\n" j c c
                   | None -> ());
-                  wait_job := None;
+                  Hashtbl.remove wait_job karg;
                   print_snapshot s
               | _ -> ())
             end
@@ -668,15 +671,18 @@ let process_trace header lines =
                         (function
                           | OEv (EvCompleted j) ->
                               completed_model := int_of_n j :: !completed_model;
-                              if !pending_resp <> None && !wait_job = Some (int_of_n j) && not (List.mem "wait-completed-while-flush-held" !covtags) then
-                                covtags := "wait-completed-while-flush-held" :: !covtags
+                              Hashtbl.iter (fun k jj -> if jj = int_of_n j && Hashtbl.mem pending_resp k && not (List.mem "wait-completed-while-flush-held" !covtags) then
+                                covtags := "wait-completed-while-flush-held" :: !covtags) wait_job
                           | _ -> ())
                         outs;
                       let outs =
                         if is_submitw then begin
                           (* the response is delivered when the held flush is answered *)
-                          List.iter (function OResp (RSubmitOk (j, _, _) as r) -> pending_resp := Some ("= " ^ resp_s r); wait_job := Some (int_of_n j) | _ -> ()) outs;
-                          print_endline "= RESP submitw pending";
+                          let k = !next_conn in
+                          incr next_conn;
+                          List.iter (function OResp (RSubmitOk (j, _, _) as r) -> Hashtbl.replace pending_resp k ("= " ^ resp_s r); Hashtbl.replace wait_job k (int_of_n j) | _ -> ()) outs;
+                          Printf.printf "= RESP submitw pending %d\n" k;
+                          if Hashtbl.length wait_job >= 2 && not (List.mem "wait-two-clients" !covtags) then covtags := "wait-two-clients" :: !covtags;
                           if not (List.mem "submit-wait" !covtags) then covtags := "submit-wait" :: !covtags;
                           List.filter (function OResp _ -> false | _ -> true) outs
                         end
